@@ -28,6 +28,7 @@ type PropSpec struct {
 	RunFn    func(r *Runner) // if set, replaces the mode-A pipeline entirely
 	SkipKind func(in Inst, kind string, tier string) bool
 	Corpus   func(tier string, seed int64) []Inst
+	AbstractMul bool
 }
 
 type KnownFinding struct {
@@ -366,7 +367,7 @@ func (r *Runner) symx(pkgs []*FixPkg) {
 	if r.Spec.Timeout != nil {
 		solverTimeout = r.Spec.Timeout(r.Tier)
 	}
-	opts := RunOpts{Bounds: b, Workers: r.Workers, CrossCheck: r.Tier == "thorough", Filter: r.Filter}
+	opts := RunOpts{Bounds: b, Workers: r.Workers, CrossCheck: r.Tier == "thorough", Filter: r.Filter, AbstractMul: r.Spec.AbstractMul}
 	res := runHarnesses(ld, opts)
 	r.Results = append(r.Results, res...)
 	r.Extra["bounds"] = b
